@@ -80,6 +80,11 @@ def gen_plan(seed: int, run: int, tier: str) -> dict:
         "p_seam": rng.choice([0.05, 0.2, 0.5]),
         "busy_timeout": 120.0,
         "late_sweepers": rng.choice([1, 2, 2, 3]),
+        # every SQL statement / seam call takes a few microseconds of virtual time, so the
+        # database clock moves between two statements of one sweep
+        "tick": rng.choice([0.0, 2e-5, 2e-5, 1e-4]),
+        # how long after the last event the late sweep starts: just over the grace period, or days
+        "late_delay": rng.choice(["grace", "grace", "grace", "day", "days"]),
     }
     return {"check": ID, "seed": seed, "run": run, "cfg": cfg, "workers": workers, "faults": faults, "sched": {"seed": rng.getrandbits(48)}}
 
@@ -100,7 +105,7 @@ def run_plan(plan: dict) -> dict:
     cfg = plan["cfg"]
     ch = common.make_chooser(plan)
     trace = ("optuna/storages/_heartbeat.py", "optuna/storages/_callbacks.py") + (("optuna/storages/_rdb/storage.py", "optuna/storages/_cached_storage.py") if cfg.get("p_line", 0) >= 0.1 else ())
-    sim = sched.Sim(ch, trace_suffixes=trace if cfg.get("p_line", 0) > 0 else (), max_steps=400000, uuid_salt=str(plan.get("run", 0)))
+    sim = sched.Sim(ch, trace_suffixes=trace if cfg.get("p_line", 0) > 0 else (), max_steps=400000, uuid_salt=str(plan.get("run", 0)), tick=cfg.get("tick", 0.0))
     dep = deploy.Deployment(sim, cfg["deployment"], dict(cfg, heartbeat_interval=None, grace_period=None))
     try:
         return _run(plan, sim, ch, dep)
@@ -312,7 +317,8 @@ def _run(plan: dict, sim: sched.Sim, ch: sched.Chooser, dep: deploy.Deployment) 
         # (several, so that they race for the same stale trials)
         def late_body(lname: str, lproc: Any) -> Any:
             def body() -> None:
-                sim.sleep(eff_grace + hb + 1.0)
+                extra = {"grace": 0.0, "day": 86400.0 - hb - 1.0 + eff_grace / 2.0, "days": 3 * 86400.0 + eff_grace / 2.0}[cfg.get("late_delay", "grace")]
+                sim.sleep(eff_grace + hb + 1.0 + extra)
                 st = make_storage(lproc)
                 study = optuna.load_study(study_name="hb", storage=st)
                 region[lname] = ["other"]
